@@ -49,7 +49,7 @@ BOUNDS = (
 OUTSIDE = (
     "truncated / corrupted byte strings and everything the Arrow C++ reader decides (framing, column types); the dispatch half of serve_one "
     "after _read_request (method lookup, parameter validation: C06/C04); external-location pointer requests; real POSIX shm semantics beyond "
-    "the attach contract; whether ending the connection on ArrowInvalid from a shm region (answered) is acceptable is taken from the property text"
+    "the attach contract (replays stage every attach outcome with real POSIX segments except PermissionError, which cannot be provoked as root); whether ending the connection on ArrowInvalid from a shm region (answered) is acceptable is taken from the property text"
 )
 ASSUMPTIONS = [
     "int(<bytes>) := returns some int or raises ValueError; int(None) raises TypeError (C-level parser; CrossHair realises int(symbolic bytes))",
